@@ -155,6 +155,23 @@ main(int argc, char **argv)
 		}
 		vf_distinct("version_shape", "%04x c%04x-%04x s%04x-%04x kx%d", pv->version, cc.vmin, cc.vmax, sc.vmin, sc.vmax, pv->s->kx);
 		sc.keykind = keykind;
+		if ((idx % 8) == 5) {
+			/* an eighth of the sessions on one of the library's seven minimal server profiles (br_ssl_server_init_mine2c ...
+			   minv2g), taken as it is: TLS 1.2, one suite, SHA-256; the client offers its whole default list and range */
+			static const uint16_t psuite[8] = { 0, 0xCCA8, 0xC02F, 0xCCA9, 0xC02B, 0x009C, 0xC031, 0xC02D };
+			static const int pkey[8] = { 0, TP_KEY_RSA, TP_KEY_RSA, TP_KEY_ECEC, TP_KEY_ECRSA, TP_KEY_RSA, TP_KEY_ECRSA, TP_KEY_ECEC };
+			int pf = 1 + (int)((idx / 8) % 7), q;
+			for (q = 0; q < nsv; q ++) if (sv[q].s->id == psuite[pf] && sv[q].version == 0x0303) break;
+			if (q < nsv) {
+				pv = &sv[q];
+				sc.profile = pf; sc.keykind = keykind = pf == 3 || pf == 4 ? ((idx / 56) & 1 ? TP_KEY_ECRSA : TP_KEY_ECEC) : pkey[pf];
+				sc.vmin = sc.vmax = 0;                       /* the profile's own version range */
+				cc.vmin = 0x0301; cc.vmax = 0x0303;
+				if ((idx / 8) & 8) { cc.suites = NULL; cc.nsuites = 0; } else { suite_list[0] = pv->s->id; }
+				vf_stat("sessions_on_minimal_server_profiles", 1);
+				vf_distinct("server_profile", "%d/k%d", pf, keykind);
+			}
+		}
 		/* chains: the single certificate, leaf + intermediate, a 21 kB leaf (Certificate message over several records,
 		   whatever the fragment classes), leaf + superfluous root; a quarter of the sessions with client certificates
 		   (RSA, possibly with its intermediate; EC: signature or static ECDH as the suite allows) */
